@@ -6,6 +6,7 @@ import (
 	"runtime"
 	"runtime/debug"
 	"slices"
+	"sort"
 	"sync"
 	"testing"
 
@@ -27,6 +28,7 @@ func init() {
 	vk.Register("C12", "lcsrand", runC12LCS)
 	vk.Register("C17", "exh", runC17)
 	vk.Register("C17", "rand", runC17)
+	vk.Register("C17", "rotbig", runC17)
 }
 
 func TestReplay(t *testing.T) { vk.ReplayMain(t) }
@@ -1569,6 +1571,76 @@ func TestC17Rand(t *testing.T) {
 	megaEvery = h.Pick(4000, 20000)
 	h.Note("about one case in %d is a Rotate of an int slice of 2^20-1 .. 2^22+135 elements, three in four of them directly after a Rotate of a small slice by the same k", megaEvery)
 	vk.Rapid(h, t, genUtilCase, runC17)
+}
+
+// TestC17RotBig: Rotate of long int slices by EVERY small shift in either
+// direction (|k| <= 70), every shift within 70 of the length, powers of two
+// and their neighbours, and around len/2 - the region where a bulk-copy or
+// block-swap path for long slices and short shifts would live, which the
+// random leg visits a few times per run only.  Lengths around 2^12, 2^16, 2^17
+// (thorough: and 2^20, 2^22), a round one and an odd one.
+func TestC17RotBig(t *testing.T) {
+	h := vk.Start(t, "C17", "rotbig")
+	slot := h.Slot()
+	tl := vk.NewTally()
+	rng := h.RNG("rotbig")
+	sizes := []int{4096, 1<<16 - 1, 1 << 16, 1<<16 + 1, 100000, 1 << 17, 1<<17 + 3}
+	if h.Pick(0, 1) == 1 {
+		sizes = append(sizes, 1<<20, 1<<20+1, 1<<22)
+	}
+	sizes = append(sizes, 1<<16+2+rng.Intn(1<<16))
+	i := 0
+	for _, n := range sizes {
+		ks := map[int]bool{}
+		for k := -70; k <= 70; k++ {
+			ks[k], ks[n-k], ks[k-n] = true, true, true
+		}
+		for t := 64; t <= n; t *= 2 {
+			for d := -1; d <= 1; d++ {
+				ks[t+d], ks[-t+d], ks[n-t+d], ks[t-n+d] = true, true, true, true
+			}
+		}
+		for d := -2; d <= 2; d++ {
+			ks[n/2+d], ks[-n/2+d], ks[n/3+d] = true, true, true
+		}
+		ks[rng.Intn(n)], ks[-rng.Intn(n)] = true, true
+		for k := range ks {
+			if k < -n-1 || k > n+1 {
+				delete(ks, k)
+			}
+		}
+		keys := make([]int, 0, len(ks))
+		for k := range ks {
+			keys = append(keys, k)
+		}
+		sort.Ints(keys)
+		for _, k := range keys {
+			if h.Failed() {
+				break
+			}
+			c := UtilCase{Fn: "Rotate", Mega: true, N: n, K: k, Spare: i % 3}
+			slot.Enter(c)
+			o := &vk.Obs{}
+			msg := vk.Guard(func() string { return runC17(c, o) })
+			slot.Leave()
+			if msg != "" {
+				p := h.Fail(c, msg)
+				t.Fatalf("VK-VIOLATION property=C17 leg=rotbig replay=%s\n%s", p, msg)
+			}
+			tl.Evals++
+			for _, cl := range o.Classes() {
+				tl.Classes[cl]++
+			}
+			if k%n != 0 && k >= -n && k <= n {
+				tl.NT++ // a proper rotation of a long slice
+			}
+			if i%211 == 7 {
+				h.Sample(c, true)
+			}
+			i++
+		}
+	}
+	h.MergeTally(tl)
 }
 
 func TestC17Exhaustive(t *testing.T) {
